@@ -21,7 +21,7 @@ META = {
     "design_ref": "DESIGN.md §4.5 C50",
     "technique": "TLA+ contract of delimiter-aligned block reading; TLC enumerates all small files x delimiters x blocksizes; real "
                  "read_bytes/read_text outputs validated by TLC",
-    "level_text": "Exhaustive over all files of length <= 6 (thorough 8) over {a,b,d,e} x 4 delimiters (d, de, dd, ded) x every "
+    "level_text": "TLC checks the design for all files of length <= 6 (thorough 8) and exports them; a seeded sample (1000 / 3000 cases) is replayed over {a,b,d,e} x 4 delimiters (d, de, dd, ded) x every "
                   "blocksize 1..len+1 and None x include_path x files_per_partition (1-4 over 1-5 files, partition count decided too), "
                   "ASCII, multi-byte and 'every non-delimiter symbol is a Unicode line boundary (VT, U+2028, RS)' "
                   "concretisations: TLC proves the contract on the Cut-defined blocks for every blocksize and decides every recorded "
@@ -161,6 +161,8 @@ def expand(c, rng, thorough):
     if not thorough:
         bss = sorted(set(rng.sample(range(1, n + 2), min(3, n + 1)))) + [None]
         encs = rng.sample(encs, 2)
+    else:
+        encs = rng.sample(encs, 3)           # (every blocksize, three of the concretisations per case)
     for enc in encs:
         for bs in bss:
             # blocksize counts BYTES: keep symbol blocksizes but also exercise byte-level cuts in utf8
@@ -171,7 +173,7 @@ def expand(c, rng, thorough):
         # files_per_partition (only legal with blocksize=None): every grouping of 1..5 files, incl. a short last group
         # and more files per partition than files
         for nfiles, fpp in ([(rng.randint(1, 5), rng.randint(1, 4))] if not thorough else
-                            [(a, b) for a in (1, 2, 3, 5) for b in (1, 2, 3, 4)]):
+                            rng.sample([(a, b) for a in (1, 2, 3, 5) for b in (1, 2, 3, 4)], 5)):
             out.append({"what": "text", "f": f, "dl": dl, "enc": enc, "bs": None, "include_path": bool((nfiles + fpp) % 3 == 0),
                         "fpp": fpp, "nfiles": nfiles})
     return out
@@ -254,7 +256,7 @@ def core(ctx, rng, maxlen, thorough, cap, nrandom):
 
 
 def run(ctx):
-    core(ctx, ctx.rng, ctx.pick(6, 8), not ctx.quick, ctx.pick(1000, 40000), ctx.pick(100, 2000))
+    core(ctx, ctx.rng, ctx.pick(6, 8), not ctx.quick, ctx.pick(1000, 3000), ctx.pick(100, 2000))
     ctx.rule = ("case = (file, delimiter) enumerated by TLC x (read_bytes | read_text) x blocksize x encoding x include_path x "
                 "files_per_partition x 1-2 files; non-trivial = file of >= 2 symbols containing the delimiter")
 
